@@ -1213,6 +1213,11 @@ func runHist(c fw.Case, tier string, rec *fw.Recorder) {
 	h.observe(ch.Ctx(), nil, "block 2", true)
 	// first chain active from the start, the second one some time later
 	h.activateChainNamed(allChains[0].Ref)
+	if p.Variant%5 == 0 {
+		if !h.realGovAddChain() {
+			return
+		}
+	}
 
 	for ch.Height < int64(p.Blocks) {
 		next := ch.Height + 1
@@ -1274,6 +1279,98 @@ func runHist(c fw.Case, tier string, rec *fw.Recorder) {
 		}
 	}
 	rec.Count("snapshot_ids_at_end", int64(h.maxID))
+}
+
+// plainBlock: one block without workload transactions of the step loop (used by set-up flows);
+// the block-boundary oracles run as usual.
+func (h *hist) plainBlock() (*chain.BlockResult, bool) {
+	ref := h.reference(h.c.Ctx())
+	br := h.c.NextBlock()
+	if br.Panic != "" || br.Err != nil {
+		h.rec.Inconclusive(fmt.Sprintf("block %d failed: %s %v", h.c.Height+1, br.Panic, br.Err))
+		return br, false
+	}
+	h.rec.Count("blocks", 1)
+	h.observe(h.c.Ctx(), ref, fmt.Sprintf("block %d", h.c.Height), true)
+	return br, true
+}
+
+// realGovAddChain adds the next chain through a REAL governance round (signed MsgSubmitProposal
+// carrying MsgExecLegacyContent{AddChainProposal}, signed votes of all validators, voting period,
+// gov end-blocker), so that the direct-mode shortcut used elsewhere stays honest.
+func (h *hist) realGovAddChain() bool {
+	if h.nextChain >= len(allChains) {
+		return true
+	}
+	cd := allChains[h.nextChain]
+	content := &evmtypes.AddChainProposal{Title: "add " + cd.Ref, Description: "d", ChainReferenceID: cd.Ref, ChainID: cd.ID,
+		BlockHeight: 100, BlockHashAtHeight: "0x" + strings.Repeat("cd", 32), MinOnChainBalance: "0"}
+	packed, err := codectypes.NewAnyWithValue(content)
+	if err != nil {
+		h.rec.Inconclusive(err.Error())
+		return false
+	}
+	sp, err := govv1.NewMsgSubmitProposal([]sdk.Msg{govv1.NewMsgExecLegacyContent(packed, chain.GovAuthority())},
+		sdk.NewCoins(sdk.NewInt64Coin(chain.Denom, 10_000)), h.users[0].Bech, "", "add "+cd.Ref, "C10: add chain through governance", false)
+	if err != nil {
+		h.rec.Inconclusive(err.Error())
+		return false
+	}
+	h.rec.Op(map[string]any{"op": "real-gov-add-chain", "chain": cd.Ref, "h": h.c.Height + 1})
+	if err := h.c.QueueTx(h.users[0], 0, sp); err != nil {
+		h.rec.Inconclusive(err.Error())
+		return false
+	}
+	br, ok := h.plainBlock()
+	if !ok {
+		return false
+	}
+	if !br.Txs[0].OK() {
+		h.rec.Inconclusive("submit proposal: " + br.Txs[0].Log)
+		return false
+	}
+	pidStr, found := chain.EventAttr(br.Txs[0].Events, "submit_proposal", "proposal_id")
+	if !found {
+		h.rec.Inconclusive("no proposal id in events")
+		return false
+	}
+	var pid uint64
+	fmt.Sscanf(pidStr, "%d", &pid)
+	for _, v := range h.joinedVals() {
+		if err := h.c.QueueTx(v.Acct, 0, govv1.NewMsgVote(v.Acct.Addr, pid, govv1.OptionYes, "")); err != nil {
+			h.rec.Inconclusive(err.Error())
+			return false
+		}
+	}
+	if _, ok := h.plainBlock(); !ok {
+		return false
+	}
+	for i := 0; i < 30; i++ {
+		p, err := h.c.App.GovKeeper.Proposals.Get(h.c.Ctx(), pid)
+		if err != nil {
+			h.rec.Inconclusive(err.Error())
+			return false
+		}
+		switch p.Status {
+		case govv1.StatusPassed:
+			h.nextChain++
+			h.known[cd.Ref] = cd.ID
+			h.rec.Count("real_gov_chains_added", 1)
+			return true
+		case govv1.StatusFailed, govv1.StatusRejected:
+			h.rec.Inconclusive(fmt.Sprintf("proposal %d ended with status %s: %s", pid, p.Status, p.FailedReason))
+			return false
+		}
+		if (h.c.Height+1)%50 == 0 {
+			h.rec.Inconclusive("real gov round reached a build height")
+			return false
+		}
+		if _, ok := h.plainBlock(); !ok {
+			return false
+		}
+	}
+	h.rec.Inconclusive("proposal did not finish")
+	return false
 }
 
 func (h *hist) activateChainNamed(cref string) {
